@@ -100,6 +100,26 @@ class LimitsMonitor(Monitor):
         clk = int(spec["clock_period"])
         dreq = len(p["a"])
         dnew = limits.next_multiple(dreq, clk)
+        # ---- the channel's own answer about this duration, whatever the state of the sequence: refused iff outside
+        #      [min, max] before or after rounding up to the clock period, else the next clock multiple ----------------
+        cobj = ev.pre["chans"].get(ev.op["ch"], {}).get("obj") if ev.pre["chans"].get(ev.op["ch"]) else None
+        if cobj is not None:
+            import warnings as _w
+            mn_, mx_ = int(spec["min_duration"]), spec["max_duration"]
+            must_raise = dreq < mn_ or (mx_ is not None and (dreq > mx_ or dnew > mx_))
+            try:
+                with _w.catch_warnings():
+                    _w.simplefilter("ignore")
+                    got_d, dexc = cobj.validate_duration(dreq), None
+            except Exception as e_:
+                got_d, dexc = None, e_
+            ctx.count("validate_duration_probes")
+            if dnew != dreq and mx_ is not None and dnew == int(mx_):
+                ctx.count("validate_duration_probes_rounding_up_to_max")
+            if must_raise != (dexc is not None) or (dexc is None and int(got_d) != dnew):
+                ctx.violation("duration", f"Channel.validate_duration({dreq}) on a channel with min {mn_}, max {mx_}, clock {clk}: "
+                              f"{'raised ' + repr(dexc)[:100] if dexc is not None else 'returned ' + repr(got_d)}, expected "
+                              f"{'a refusal' if must_raise else dnew}", "validate-duration:" + ("refuses-valid" if dexc is not None else "accepts-or-wrong"))
         near = p["why"] != "" or self._near_limit(p)
         if near:
             ctx.mark_nontrivial(("c01", ctx.case_idx, ev.idx))
@@ -128,6 +148,8 @@ class LimitsMonitor(Monitor):
                               f"{p['t0'] + p['est'] + dnew} > max_sequence_duration {max_seq}", "accepted:over-max-sequence")
             return
         ctx.count("must_accept_checked")
+        if dnew != dreq and spec["max_duration"] is not None and dnew == int(spec["max_duration"]):
+            ctx.count("must_accept_rounded_up_to_exactly_max_duration")
         if ev.exc is not None:
             ctx.violation("rejects-valid", f"{ev.name} on {ev.op['ch']} rejected a pulse inside every limit "
                           f"(duration {dreq}, clock {clk}): {type(ev.exc).__name__}: {str(ev.exc)[:160]}",
@@ -151,6 +173,26 @@ class LimitsMonitor(Monitor):
         else:
             ctx.count("lengthened_checked")
             self._same_shape(ctx, p["pulse"], slot["pulse"], dreq, dnew)
+            # an interpolated waveform lengthened by the scheduler is the waveform one gets by asking for the longer
+            # duration with the same values, times, interpolator and interpolator options
+            from vmon import objs
+            specs = {"amplitude": ev.op["pulse"].get("amp"), "detuning": ev.op["pulse"].get("det")} if ev.name == "add" else \
+                {"detuning": ev.op.get("wf")}
+            for nm, sp in specs.items():
+                if isinstance(sp, dict) and sp.get("k") == "interp":
+                    try:
+                        want = arr(objs.build_wf(dict(sp, d=dnew)).samples)
+                    except Exception:
+                        continue
+                    ctx.count("lengthened_interpolated_checked")
+                    if sp.get("kwargs"):
+                        ctx.count("lengthened_interpolated_with_options_checked")
+                    got = sa if nm == "amplitude" else sd
+                    if len(got) != len(want) or not np.allclose(got, want, rtol=1e-9, atol=1e-9):
+                        ctx.violation("lengthened-shape", f"{nm}: InterpolatedWaveform({sp.get('interpolator', 'PchipInterpolator')}, "
+                                      f"{sp.get('kwargs')}) lengthened {dreq}->{dnew} ns differs from the same waveform built at "
+                                      f"{dnew} ns by {float(np.max(np.abs(got - want))) if len(got) == len(want) else 'length'}",
+                                      "lengthened-shape:InterpolatedWaveform:samples")
 
     # ----------------------------------------------------------------------------------------
     @staticmethod
